@@ -88,7 +88,7 @@ class C19(Prop):
         "cancellation of clients and model exceptions are outside the property's quantifier (report-only probes)",
     ]
     ddmin_paths = [("clients",)]
-    expected_probes = ["batch_of_2plus", "batch_forms_while_previous_computes", "batch_full_before_hold", "cache_hit", "queue_full_wait"]
+    expected_probes = ["client_gave_up", "sibling_index_with_other_model", "batch_of_2plus", "batch_forms_while_previous_computes", "batch_full_before_hold", "cache_hit", "queue_full_wait"]
     quick_runs = 24000
     thorough_runs = 1200000
     chunk = 250
@@ -113,7 +113,12 @@ class C19(Prop):
                 texts = [d.choice(pool, "text", c, j) for j in range(k)]
             else:
                 texts = [d.choice(pool, "text", c, 0)]
-            clients.append({"at": d.choice(ARRIVAL_GRID, "at", c), "kind": kind, "texts": texts})
+            cl = {"at": d.choice(ARRIVAL_GRID, "at", c), "kind": kind, "texts": texts}
+            if batching and kind in ("search", "batch") and n_clients >= 2 and d.chance(0.08, "gives-up", c):
+                # a caller that gives up (timeout / disconnect) shortly after asking: its request is cancelled wherever it is - the
+                # others still get their own vectors
+                cl["give_up_after"] = d.choice([0.0, 0.001, 0.005, 0.02], "give-up", c)
+            clients.append(cl)
         return {
             "knobs": {
                 "use_batching": batching,
@@ -185,14 +190,20 @@ class C19(Prop):
                 await idx._get_embeddings([c["texts"][0] for c in sc["clients"] if c["texts"]][:2])
             embed_peer.set_world(world)
             # instrument the batching entry to observe queue-full waits and batch formation
-            orig_run_batch = idx._run_batch
+            # (probes on internals are optional: a refactoring of the batching bookkeeping must not break the check)
+            orig_run_batch = getattr(idx, "_run_batch", None)
 
             async def run_batch_probe():
                 if in_flight["batch_computing"] > 0:
                     out.probe("batch_forms_while_previous_computes")
                 await orig_run_batch()
 
-            idx._run_batch = run_batch_probe
+            if orig_run_batch is not None:
+                idx._run_batch = run_batch_probe
+
+            def queue_full():
+                q = getattr(idx, "_req_queue", None)
+                return q is not None and len(q) >= idx.max_batch_size
             t0 = loop.time()
 
             async def client(ci, c):
@@ -203,18 +214,26 @@ class C19(Prop):
                 order.append(("c", "enter", ci))
                 tr.log("client", "enter", ci, round(loop.time() - t0, 6), c["kind"], c["texts"])
                 try:
-                    if c["kind"] == "search":
-                        if knobs["use_batching"] and len(idx._req_queue) >= idx.max_batch_size:
+                    if c.get("give_up_after") is not None:
+                        out.probe("client_gave_up")
+                        coro = idx.search(c["texts"][0], max_results=3) if c["kind"] == "search" else idx._batch_get_embeddings(c["texts"][0])
+                        try:
+                            await asyncio.wait_for(coro, timeout=c["give_up_after"])
+                        except asyncio.TimeoutError:
+                            pass
+                        r = None
+                    elif c["kind"] == "search":
+                        if knobs["use_batching"] and queue_full():
                             out.probe("queue_full_wait")
                         r = await idx.search(c["texts"][0], max_results=3)
                         r = [it.text for it in r]
                     elif c["kind"] == "batch":
-                        if len(idx._req_queue) >= idx.max_batch_size:
+                        if queue_full():
                             out.probe("queue_full_wait")
                         r = await idx._batch_get_embeddings(c["texts"][0])
                     else:
                         r = await idx._get_embeddings(list(c["texts"]))
-                    results[ci] = ("ok", r)
+                    results[ci] = ("gave-up", None) if c.get("give_up_after") is not None else ("ok", r)
                 except Exception as e:  # the property promises correct vectors, an exception is a wrong answer
                     results[ci] = ("exc", "%s: %s" % (type(e).__name__, e))
                 in_flight["n"] -= 1
@@ -266,6 +285,8 @@ class C19(Prop):
                 continue
             st, r = results[ci]
             tr.log("result", ci, st, r)
+            if st == "gave-up":
+                continue  # not judged: it did not wait for its answer
             if st == "exc":
                 out.violate("wrong-vector", "exception:%s:%s" % (c["kind"], r.split(":")[0]), "client %d (%s %r) raised %s" % (ci, c["kind"], c["texts"], r))
                 continue
@@ -292,7 +313,7 @@ class C19(Prop):
                 if got != want:
                     out.violate("wrong-vector", "sibling-index:%s:cache=%s" % (when, (knobs["cache"] or {}).get("store")),
                                 "the index with the other embedding model got %r for %r; its own model gives %r" % (_brief(got), st_texts, _brief(want)))
-        if idx is not None and idx._req_results:
+        if idx is not None and getattr(idx, "_req_results", None):
             # a leaked result is a result delivered to nobody: some request did not get its own vector
             out.probe("leaked_results")
         if world.texts_seen and knobs["cache"]:
